@@ -66,6 +66,7 @@ type options struct {
 	verbose  bool
 	samplesK int
 	timeoutMs int
+	cross     string
 }
 
 func main() {
@@ -111,6 +112,7 @@ func cmdRun(args []string) int {
 	fs.BoolVar(&o.verbose, "v", false, "verbose")
 	fs.IntVar(&o.samplesK, "samples", 0, "traces validated natively per harness (default 4 quick / 16 thorough)")
 	fs.IntVar(&o.timeoutMs, "timeout", 0, "solver timeout per query in ms")
+	fs.StringVar(&o.cross, "cross", "", "second solver re-deciding every discharged assertion (default: z3-new in the thorough tier, none in quick; 'none' disables)")
 	fs.Parse(args)
 	if s := os.Getenv("VERIF_SEED"); s != "" && o.seed == 0 {
 		fmt.Sscan(s, &o.seed)
@@ -354,6 +356,7 @@ var workerStats struct {
 	sat, unsat, unknown, errors      int
 	secs                             float64
 	lastErr                          string
+	crossChecked, crossDisagree, fallbacks int
 }
 
 func explore(o *options, prog *interp.Program, hs []*hstate, tier int) {
@@ -376,6 +379,31 @@ func explore(o *options, prog *interp.Program, hs []*hstate, tier int) {
 	}
 	var wg sync.WaitGroup
 	initErr := ""
+	stopProgress := make(chan struct{})
+	if os.Getenv("SYMGO_PROGRESS") != "" || o.verbose {
+		go func() {
+			tk := time.NewTicker(30 * time.Second)
+			defer tk.Stop()
+			for {
+				select {
+				case <-stopProgress:
+					return
+				case <-tk.C:
+					mu.Lock()
+					q := len(stack)
+					mu.Unlock()
+					line := fmt.Sprintf("[progress] queue=%d", q)
+					for _, h := range hs {
+						h.mu.Lock()
+						line += fmt.Sprintf(" %s:%d%v", h.H.Name, h.Paths, h.Status)
+						h.mu.Unlock()
+					}
+					fmt.Fprintln(os.Stderr, line)
+				}
+			}
+		}()
+	}
+	defer close(stopProgress)
 	for wi := 0; wi < nw; wi++ {
 		wg.Add(1)
 		go func(wi int) {
@@ -388,9 +416,20 @@ func explore(o *options, prog *interp.Program, hs []*hstate, tier int) {
 				}
 			}
 			w := interp.NewWorker(prog, o.solver, tmo, o.seed)
+			cross := o.cross
+			if cross == "" && tier == 1 {
+				cross = "z3-new"
+			}
+			if cross != "" && cross != "none" {
+				w.EnableCross(cross, tmo)
+			}
 			defer func() {
 				s, u, k, e, secs, le := w.SolverStats()
 				workerStats.mu.Lock()
+				cc, cd := w.CrossStats()
+				workerStats.crossChecked += cc
+				workerStats.crossDisagree += cd
+				workerStats.fallbacks += w.Fallbacks()
 				workerStats.sat += s
 				workerStats.unsat += u
 				workerStats.unknown += k
